@@ -7,6 +7,7 @@ import (
 	"errors"
 	"fmt"
 	"math/rand"
+	"os"
 	"sync"
 	"time"
 
@@ -325,7 +326,7 @@ func sameErr(hook, transport string) bool {
 	case "":
 		return hook == ""
 	case "deadline":
-		return hook != "" // os.ErrDeadlineExceeded text
+		return hook == osDeadlineText // exactly the error the read returned, not a substitute
 	case "eof":
 		return hook == "EOF"
 	case "inject":
@@ -333,6 +334,8 @@ func sameErr(hook, transport string) bool {
 	}
 	return hook == transport
 }
+
+var osDeadlineText = os.ErrDeadlineExceeded.Error()
 
 func lastErr(tr []xport.Event) string {
 	if len(tr) == 0 {
